@@ -6,6 +6,7 @@ import (
 	"path/filepath"
 	"strings"
 	"testing"
+	"time"
 
 	"github.com/spf13/afero"
 
@@ -537,9 +538,9 @@ func runISOProperty(t *testing.T, prop string) {
 	defer r.Done()
 	structural := prop == "C08"
 	if structural {
-		r.Rule("every tree with <= N nodes (dirs / files of size 0,1,2047,2048,2049) x every enumeration order of directory listings x {plain, PS3}; families: 1..300 entries per directory, chain depth 0..8, up to 1100 directories, name length 1..255, non-ASCII and colliding names, root-name length, symbolic links, sparse files around 4 GiB..9 GiB, PARAM.SFO key orders/entry counts, every Read capped at 1..2047 bytes; oracle = strict ECMA-119/Joliet/PS3 validator written from the standard; distinct by case description")
+		r.Rule("every tree with <= N nodes (dirs / files of size 0,1,2047,2048,2049) x every enumeration order of directory listings x {plain, PS3}; families: 1..300 entries per directory, chain depth 0..8, up to 1100 directories, name length 1..255, non-ASCII and colliding names, root-name length, symbolic links, sparse files around 4 GiB..9 GiB, PARAM.SFO key orders/entry counts, every Read capped at 1..2047 bytes; for every 29th case also the image the real make-iso writes to a file and to standard output; oracle = strict ECMA-119/Joliet/PS3 validator written from the standard; distinct by case description")
 	} else {
-		r.Rule("every tree with <= N nodes (dirs / files of size 0,1,2047,2048,2049) x every enumeration order of directory listings x {plain, PS3}; families: 1..300 entries per directory, chain depth 0..8, up to 1100 directories, sizes around 64 KiB, sparse files around 4 GiB..9 GiB, symbolic links to files and directories (relative, absolute, chained), trees holding disc images and key files (generator called directly and through the serving filesystem); oracle = independent ISO 9660/Joliet reader: both hierarchies hold exactly the source entries with exact sizes and bytes; distinct by case description")
+		r.Rule("every tree with <= N nodes (dirs / files of size 0,1,2047,2048,2049) x every enumeration order of directory listings x {plain, PS3}; families: 1..300 entries per directory, chain depth 0..8, up to 1100 directories, sizes around 64 KiB, sparse files around 4 GiB..9 GiB, symbolic links to files and directories (relative, absolute, chained), trees holding disc images and key files (generator called directly and through the serving filesystem); for every 29th case also the image the real make-iso writes to a file and to standard output; oracle = independent ISO 9660/Joliet reader: both hierarchies hold exactly the source entries with exact sizes and bytes; distinct by case description")
 	}
 	base := filepath.Join(scratchBase(), sprintf("verifh-%s-%d", strings.ToLower(prop), os.Getpid()))
 	root := filepath.Join(base, "root")
@@ -613,6 +614,75 @@ func runISOProperty(t *testing.T, prop string) {
 		}
 		if ok {
 			r.Outcome("ok:" + c.family)
+		}
+		// "... or written by make-iso": for a slice of the cases the real tool writes the image to a file and to standard
+		// output; both are judged by the same reader / validator as the library image
+		if ok && binPath() != "" && !c.huge && c.readCap == 0 && !c.viaFS && (idx/r.NShards)%29 == 0 {
+			args := []string{"make-iso"}
+			if c.ps3 {
+				args = append(args, "--ps3-mode")
+			}
+			outDir := filepath.Join(base, "out")
+			must(os.MkdirAll(outDir, 0o755))
+			for _, target := range []string{"file", "stdout"} {
+				outFile, soFile := filepath.Join(outDir, "t.iso"), filepath.Join(outDir, "stdout.iso")
+				os.Remove(outFile)
+				var code int
+				var stderr string
+				var err error
+				if target == "file" {
+					code, _, stderr, err = runTool(append(args, dir, outFile), cleanEnv(base), base, "", 120*time.Second)
+				} else {
+					code, _, stderr, err = runTool(append(args, dir, "-"), cleanEnv(base), base, soFile, 120*time.Second)
+					outFile = soFile
+				}
+				r.Trace(1)
+				if err != nil || code != 0 {
+					r.Outcome("make-iso-failed")
+					r.Violation(prop+":make-iso-failed:"+c.family, sprintf("%s: make-iso to %s: exit %d %v %s", c.desc, target, code, err, lastLines(stderr, 3)), rep)
+					break
+				}
+				data, _ := os.ReadFile(outFile)
+				var tp isoProblems
+				func() {
+					defer func() {
+						if p := recover(); p != nil {
+							tp.add("unreadable", "the independent reader gave up on the tool's output: %v", p)
+						}
+					}()
+					parsed := parseAndValidateISO(memImage(data), int64(len(data)), c.ps3, c.titleID)
+					if structural {
+						tp = parsed.Problems
+						return
+					}
+					if parsed.Primary == nil || parsed.Joliet == nil {
+						tp.add("unreadable", "the tool's output has no readable primary / Joliet hierarchy (%d bytes)", len(data))
+						return
+					}
+					compareHierarchy(memImage(data), parsed.Primary.Root, dir, false, "", &tp)
+					compareHierarchy(memImage(data), parsed.Joliet.Root, dir, true, "", &tp)
+				}()
+				bad := false
+				for sig := range tp.sigs {
+					if sig == "duplicate-identifier" {
+						continue
+					}
+					bad = true
+					first := ""
+					for _, l := range tp.list {
+						if strings.HasPrefix(l, sig+":") {
+							first = l
+							break
+						}
+					}
+					r.Outcome("make-iso-bad:" + sig)
+					r.Violation(prop+":make-iso:"+sig+":"+target, sprintf("%s: image written by make-iso to %s (%d bytes): %s", c.desc, target, len(data), first), rep)
+				}
+				if !bad {
+					r.Outcome("make-iso-ok:" + target)
+				}
+			}
+			os.RemoveAll(outDir)
 		}
 		if idx%997 == 0 {
 			r.Sample(map[string]any{"case": c.desc, "image_size": res.announced})
